@@ -29,6 +29,7 @@ from .errors import (
     JSError,
     JSTypeError,
     JSReferenceError,
+    JSRangeError,
     MemoryLimitError,
     TimeLimitError,
 )
@@ -2065,9 +2066,9 @@ class VM:
             return result
 
         def repeat(*args):
-            count = int(to_number(args[0])) if args else 0
-            if count < 0:
-                raise JSReferenceError("Invalid count value")
+            count = index_arg(args, 0)
+            if count < 0 or count == float("inf"):
+                raise JSRangeError("Invalid count value")
             return s * count
 
         def startsWith(*args):
